@@ -43,7 +43,7 @@ theorem inv_init (c : Cfg) : Inv c init := by
 
 set_option maxHeartbeats 1600000 in
 theorem inv_step (c : Cfg) (s s' : GState) (a : GAct) (h : Inv c s) (hs : step c s a = some s') : Inv c s' := by
-  obtain ⟨pc, dch, dav, ech, eav, rch, rav, ctx, given, ann, se, sba⟩ := s
+  obtain ⟨pc, dch, dav, ech, eav, rch, rav, sav, ctx, given, ann, se, sba⟩ := s
   obtain ⟨h1, h2, h3, h4, h5, h6, h7, h8, h9⟩ := h
   simp only at h1 h2 h3 h4 h5 h6 h7 h8 h9
   cases a <;> cases pc <;> simp [step, cancelCtx, passed, beforeAnnounce] at hs h1 h2 h3 h4 h5 h6 h7 h8 h9 ⊢ <;>
